@@ -28,6 +28,9 @@ pub struct Node {
     pub last: Option<(Point, Point)>,
     pub cap: bool, // reached through capture-only generation
     pub cap_len: u8, // length of the capture-only chain so far
+    // the engine's own successor object when it differs from the true position (an upstream defect):
+    // exploration then continues in lock-step, engine object beside true position
+    pub diverged: Option<Box<BoardState>>,
     pub root: Arc<String>,
     pub path: Option<Arc<PathNode>>,
     pub depth: u16,
@@ -35,9 +38,12 @@ pub struct Node {
 
 impl Node {
     pub fn root(pos: Pos) -> Node {
-        Node { pos, promo: None, oh: 0, last: None, cap: false, cap_len: 0, root: Arc::new(pos.fen()), path: None, depth: 0 }
+        Node { pos, promo: None, oh: 0, last: None, cap: false, cap_len: 0, diverged: None, root: Arc::new(pos.fen()), path: None, depth: 0 }
     }
     pub fn board(&self, h: &ZobristHasher) -> BoardState {
+        if let Some(d) = &self.diverged {
+            return (**d).clone();
+        }
         let mut b = board_of_pos(&self.pos, h);
         b.pawn_promotion = self.promo;
         b.order_heuristic = self.oh;
@@ -59,7 +65,13 @@ impl Node {
             None => 0u32,
             Some(p) => 1 + oracle_piece(p) as u32,
         };
-        fingerprint(&self.pos, promo_bits | ((self.cap as u32) << 8))
+        let mut extra = promo_bits | ((self.cap as u32) << 8);
+        if let Some(d) = &self.diverged {
+            // distinguish by what the engine believes
+            let believed = pos_of_board(d).map(|p| fingerprint(&p, 0)).unwrap_or(1) ^ (d.zobrist_key as u128);
+            extra ^= ((believed as u32) | 1) << 9;
+        }
+        fingerprint(&self.pos, extra)
     }
     pub fn replay_json(&self, what: &str) -> J {
         let pm = self.path_moves();
@@ -329,7 +341,10 @@ impl<'a> Explorer<'a> {
                         }
                     }
                 }
-                if ok && expand {
+                if expand {
+                    if !ok {
+                        bump(l, "states_where_engine_object_and_true_position_differ");
+                    }
                     let child = Node {
                         pos: want,
                         promo: succ.pawn_promotion,
@@ -337,6 +352,7 @@ impl<'a> Explorer<'a> {
                         last: succ.last_move,
                         cap: false,
                         cap_len: 0,
+                        diverged: if ok { None } else { Some(Box::new(succ.clone())) },
                         root: node.root.clone(),
                         path: Some(Arc::new(PathNode { parent: node.path.clone(), mv, cap: false })),
                         depth: node.depth + 1,
@@ -396,11 +412,11 @@ impl<'a> Explorer<'a> {
                 // with much material the tree of capture sequences is astronomically large: chains from such
                 // states are followed to a stated length only (reported as a cap)
                 let heavy = pos.b.iter().filter(|x| **x != 0).count() > 12;
-                if ok && heavy && node.cap_len >= self.cap_chain_limit_heavy {
+                if heavy && node.cap_len >= self.cap_chain_limit_heavy {
                     bump(l, "capture_chains_cut_at_the_length_cap_for_positions_with_more_than_12_pieces");
-                    ok = false;
+                    continue;
                 }
-                if ok {
+                {
                     let child = Node {
                         pos: want,
                         promo: succ.pawn_promotion,
@@ -408,6 +424,7 @@ impl<'a> Explorer<'a> {
                         last: succ.last_move,
                         cap: true,
                         cap_len: node.cap_len + 1,
+                        diverged: if ok { None } else { Some(Box::new(succ.clone())) },
                         root: node.root.clone(),
                         path: Some(Arc::new(PathNode { parent: node.path.clone(), mv, cap: true })),
                         depth: node.depth, // capture chains do not consume the depth budget: they run to their end
@@ -608,7 +625,7 @@ pub fn walk(ex: &Explorer, root_fen: &str, path: &[String]) -> Result<Node, Stri
         let board = node.board(&ex.h);
         let succs = generate_moves(&board, if cap { MoveGenerationMode::CapturesOnly } else { MoveGenerationMode::AllMoves }, &ex.h);
         let succ = succs.iter().find(|s| move_of_successor(&node.pos, s) == Some(mv)).ok_or(format!("the engine no longer generates {} from {}", mv.uci(), node.pos.fen()))?;
-        node = Node { pos: node.pos.make(&mv), promo: succ.pawn_promotion, oh: succ.order_heuristic, last: succ.last_move, cap, cap_len: if cap { node.cap_len + 1 } else { 0 }, root: node.root.clone(), path: Some(Arc::new(PathNode { parent: node.path.clone(), mv, cap })), depth: node.depth + 1 };
+        node = Node { pos: node.pos.make(&mv), promo: succ.pawn_promotion, oh: succ.order_heuristic, last: succ.last_move, cap, cap_len: if cap { node.cap_len + 1 } else { 0 }, diverged: if diff_board(succ, &node.pos.make(&mv)).is_some() || succ.zobrist_key != scratch_key(&node.pos.make(&mv), &ex.h) { Some(Box::new(succ.clone())) } else { None }, root: node.root.clone(), path: Some(Arc::new(PathNode { parent: node.path.clone(), mv, cap })), depth: node.depth + 1 };
     }
     Ok(node)
 }
